@@ -47,3 +47,131 @@ def check_frame(f, rep, rule, adts=('Foca', 'member::Member', 'member::Members',
                 rep.check(fld['vis'] != 'Public', rule, a, 'field %s is not public' % fld['name'], construct='field-vis:' + fld['name'],
                           facts={'vis': fld['vis']})
     rep.floor(rule, n, 25, 'fields inspected')
+
+
+def check_helpers(ctx, f, rep, rule, which):
+    """Bodies of small helpers whose meaning other rules rely on by name. `which` selects a subset."""
+    from .lib import query as q
+    rep.rule(rule, 'the small helpers other rules rely on by name mean what their names say (bodies checked from MIR): ' +
+             ', '.join(sorted(which)))
+
+    def single_path(fn):
+        b = f.fn(fn)
+        ps = [p for p in ctx.paths(f, b, 'none') if p.end == 'return']
+        return b, ps
+
+    def closure_of(p, callee_suffix):
+        for e in p.calls():
+            if (e['res'] or e['decl']).endswith(callee_suffix):
+                for a in e['args']:
+                    if a[0] == 'agg' and a[1] == 'closure':
+                        return f.fn(a[2]), e
+        return None, None
+
+    def iter_over(p, field_place):
+        cs = p.calls()
+        return len(cs) >= 2 and cs[0]['res'] == '<alloc::vec::Vec as core::ops::Deref>::deref' and \
+            cs[0]['args'][0] == ('ref', field_place, False) and cs[1]['res'] == 'core::slice::<impl [T]>::iter'
+
+    if 'Members::is_active' in which:
+        b, ps = single_path('member::Members::is_active')
+        good = len(ps) == 1 and iter_over(ps[0], q.self_field('inner'))
+        cb, e = closure_of(ps[0], 'Iterator>::any') if good else (None, None)
+        good = good and cb is not None and ps[0].ret == ('call', e['id'])
+        if good:
+            cps = ctx.paths(f, cb, 'none')
+            # false unless ids equal; then Member::is_active(member)
+            t = [p for p in cps if not (p.ret[0] == 'const' and p.ret[2] == 0)]
+            fl = [p for p in cps if p.ret[0] == 'const' and p.ret[2] == 0]
+            good = len(t) == 1 and len(fl) == 1 and t[0].ret[0] == 'call' and \
+                {c['id']: c for c in t[0].calls()}[t[0].ret[1]]['res'] == 'member::Member::is_active'
+            for p in cps:
+                es = [q.eq_sides(c['expr']) for c in p.conds()]
+                good = good and len(es) == 1 and es[0] is not None
+        rep.check(good, rule, b.nname, 'is_active(id) = inner.iter().any(|m| m.id == id && m.is_active())', construct='helper')
+    if 'Members::iter_active' in which:
+        b, ps = single_path('member::Members::iter_active')
+        good = len(ps) == 1 and iter_over(ps[0], q.self_field('inner'))
+        cb, e = closure_of(ps[0], 'Iterator::filter') if good else (None, None)
+        good = good and cb is not None and ps[0].ret == ('call', e['id'])
+        if good:
+            cps = ctx.paths(f, cb, 'none')
+            good = len(cps) == 1 and cps[0].ret[0] == 'call' and cps[0].calls()[0]['res'] == 'member::Member::is_active'
+        rep.check(good, rule, b.nname, 'iter_active() = inner.iter().filter(|m| m.is_active())', construct='helper')
+        b, ps = single_path('Foca::iter_members')
+        good = len(ps) == 1 and len(ps[0].calls()) == 1 and ps[0].calls()[0]['res'] == 'member::Members::iter_active' and \
+            ps[0].ret == ('call', ps[0].calls()[0]['id'])
+        rep.check(good, rule, b.nname, 'iter_members() = members.iter_active()', construct='helper')
+        b, ps = single_path('Foca::num_members')
+        good = len(ps) == 1 and len(ps[0].calls()) == 1 and ps[0].calls()[0]['res'] == 'member::Members::num_active'
+        rep.check(good, rule, b.nname, 'num_members() = members.num_active()', construct='helper')
+        b, ps = single_path('member::Members::num_active')
+        rep.check(len(ps) == 1 and not ps[0].calls() and ps[0].ret == ('load', q.self_field('num_active'), 0), rule, b.nname,
+                  'num_active() returns the field', construct='helper')
+    if 'Probe::is_probing' in which:
+        b, ps = single_path('probe::Probe::is_probing')
+        good = len(ps) == 1
+        cb, e = closure_of(ps[0], 'Option::is_some_and') if good else (None, None)
+        good = good and cb is not None and ps[0].ret == ('call', e['id']) and \
+            ps[0].calls()[0]['res'] == 'core::option::Option::as_ref' and ps[0].calls()[0]['args'][0] == ('ref', q.self_field('direct'), False)
+        if good:
+            cps = ctx.paths(f, cb, 'none')
+            good = len(cps) == 1 and cps[0].ret[0] == 'binop' and cps[0].ret[1] == 'Eq'
+        rep.check(good, rule, b.nname, 'is_probing(id) = direct.is_some_and(|p| p.id() == id)', construct='helper')
+        b, ps = single_path('probe::Probe::probe_number')
+        rep.check(len(ps) == 1 and ps[0].ret == ('load', q.self_field('probe_number'), 0), rule, b.nname,
+                  'probe_number() returns the field', construct='helper')
+    if 'Probe::expect_indirect_ack' in which:
+        b, ps = single_path('probe::Probe::expect_indirect_ack')
+        good = len(ps) >= 1
+        for p in ps:
+            pushes = [c for c in p.calls() if c['res'] == 'alloc::vec::Vec::push']
+            good = good and len(pushes) == 1 and pushes[0]['args'] == [('ref', q.self_field('indirect'), True), ('param', 0, 2)]
+        rep.check(good, rule, b.nname, 'expect_indirect_ack(from) pushes `from` onto the list of asked helpers', construct='helper')
+    if 'Probe::mark' in which:
+        b, ps = single_path('probe::Probe::mark_indirect_probe_stage_reached')
+        good = len(ps) == 1 and [(w['place'], w['value']) for w in ps[0].writes()] == \
+            [(q.self_field('reached_indirect_probe_stage'), ('const', 'bool', 1, 'true'))]
+        rep.check(good, rule, b.nname, 'sets reached_indirect_probe_stage := true and nothing else', construct='helper')
+    if 'backlog' in which:
+        for fn, fld in (('Foca::custom_broadcast_backlog', 'custom_broadcasts'), ('Foca::updates_backlog', 'updates')):
+            b, ps = single_path(fn)
+            good = len(ps) == 1 and len(ps[0].calls()) == 1 and ps[0].calls()[0]['res'] == 'broadcast::Broadcasts::len' and \
+                ps[0].calls()[0]['args'][0] == ('ref', q.self_field(fld), False)
+            rep.check(good, rule, fn, '= %s.len()' % fld, construct='helper')
+        for fn, callee in (('broadcast::Broadcasts::len', 'alloc::collections::BinaryHeap::len'),
+                           ('broadcast::Broadcasts::is_empty', 'alloc::collections::BinaryHeap::is_empty')):
+            b, ps = single_path(fn)
+            good = len(ps) == 1 and len(ps[0].calls()) == 1 and ps[0].calls()[0]['res'] == callee and \
+                ps[0].calls()[0]['args'][0] == ('ref', q.self_field('flip'), False)
+            rep.check(good, rule, fn, 'reads the live heap (flip)', construct='helper')
+    if 'serialize_member' in which:
+        b = f.fn('Foca::serialize_member')
+        ps = ctx.paths(f, b, 'none')
+        good = bool(ps)
+        for p in ps:
+            enc = [c for c in p.calls() if c['decl'] == 'codec::Codec::encode_member']
+            good = good and len(enc) == 1 and enc[0]['args'][1] == ('ref', ('local', 0, 2), False) and \
+                enc[0]['args'][0] == ('ref', q.self_field('codec'), True)
+            if p.end == 'return' and not q.path_is_error_propagation(p):
+                r = p.ret
+                good = good and r[0] == 'agg' and r[3] == 'Ok'
+        rep.check(good, rule, b.nname, 'serialize_member(m) = codec.encode_member(&m, fresh Vec) and returns those bytes',
+                  construct='helper')
+    if 'choose_members' in which:
+        b = f.fn('member::Members::choose_members')
+        n = 0
+        good = True
+        for p in ctx.paths(f, b, 'none'):
+            calls = {c['id']: c for c in p.calls()}
+            evs = p.events
+            for i, e in enumerate(evs):
+                if e['kind'] == 'call' and e['res'] in ('alloc::vec::Vec::push', '<alloc::vec::Vec as core::ops::IndexMut>::index_mut'):
+                    n += 1
+                    # since the last Iterator::next: picker(member) was called and was true
+                    j = max([k for k in range(i) if evs[k]['kind'] == 'call' and evs[k]['res'].endswith('Iterator>::next')] or [0])
+                    picks = [x for x in evs[j:i] if x['kind'] == 'cond' and x['expr'][0] == 'call' and
+                             calls[x['expr'][1]]['decl'].startswith('core::ops::Fn')]
+                    good = good and len(picks) == 1 and q.cond_truth(picks[0]) is True
+        rep.check(good and n >= 2, rule, b.nname, 'the reservoir only ever takes members for which picker(member) was true in '
+                  'that iteration', construct='helper')
